@@ -37,7 +37,10 @@ StringifiedNumbers(want, g) == \E S \in (SUBSET NumAtoms(want)) \ {{}} : QEquiv(
 
 Clauses(o) ==
     LET want == XRuleDen(o.doc, 1, o.Ts, FALSE) IN
-    IF ~o.ret.ok /\ ~o.ret.sigma THEN <<C("NonSigmaException")>>
+    \* (NotImplementedError is how a backend says "I cannot express this": no violation if the rule cannot be
+    \*  expressed without the pipeline either)
+    IF ~o.ret.ok /\ ~o.ret.sigma /\ ~(o.ret.exc = "NotImplementedError" /\ ~o.plain.ok /\ o.plain.exc = "NotImplementedError")
+    THEN <<C("NonSigmaException")>>
     ELSE IF ~o.plain.ok THEN <<>>                     \* the rule does not convert even without pipeline
     ELSE IF want.st = "unspec" THEN <<D("__unspec")>>
     ELSE IF want.st = "fail" THEN (IF o.ret.ok THEN <<C("InvalidRuleConverted")>> ELSE <<>>)
